@@ -27,6 +27,7 @@ Theorem aggregate_coin_exact vs c m :
 Proof.
   unfold aggregate_values. intros H.
   match type of H with (_ <- ?e ;; _) = _ => destruct e as [c1| | |] eqn:E; cbn [obind] in H; try discriminate end.
+  destruct (totals_fit _ _); [|discriminate].
   injection H as <- _. destruct (coin_fold vs 0 c1 E) as [Hc Hb]. split; [lia|exact Hb].
 Qed.
 
